@@ -187,7 +187,14 @@ def observe(x):
             a = x.columns[c]
             # text columns: the item size is observed too (it is what the array costs; a round trip must not inflate it)
             cols[c] = [a.dtype.str.lstrip("<>|=") if a.dtype.kind == "U" else a.dtype.kind if a.dtype.kind in "OSb" else "n", num(a)]
-        return dict(kind="table", header=list(x.header), cols=cols, title=x.title, legend=x.legend, index_name=x.index_name,
+        lookup = None
+        if x.index_name is not None and x.shape[0] and x.shape[1] > 1:
+            # what the index is for: a cell addressed by row label and column name
+            try:
+                lookup = num(x[x.columns[x.index_name][0], [h for h in x.header if h != x.index_name][-1]])
+            except Exception as e:  # noqa: BLE001
+                lookup = f"<{type(e).__name__}>"
+        return dict(kind="table", header=list(x.header), cols=cols, title=x.title, legend=x.legend, index_name=x.index_name, lookup=lookup,
                     shape=list(x.shape), str=str(x), fmt=num(dict(x._column_templates) if isinstance(x._column_templates, dict) else None) if not x._column_templates or all(isinstance(v, str) for v in x._column_templates.values()) else "callable",
                     digits=x._digits, space=x.space if isinstance(x.space, int) else len(x.space), missing=x._missing_data, max_width=x._max_width)
     if isinstance(x, (oalpha.Alphabet, oalpha.JointEnumeration)):
@@ -720,11 +727,61 @@ def case_tree(p):
     return r
 
 
+def table_by_route(route, p):
+    """every library route that makes a Table out of another object"""
+    import numpy
+
+    from cogent3 import make_aligned_seqs
+
+    if route == "darr":
+        from cogent3.util.dict_array import DictArrayTemplate
+
+        return DictArrayTemplate(*p["names"]).wrap(numpy.array(p["array"], dtype=p.get("dtype", float))).to_table()
+    if route == "dmat":
+        from cogent3.evolve.fast_distance import DistanceMatrix
+
+        return DistanceMatrix({tuple(k): v for k, v in p["dists"]}).to_table()
+    aln = make_aligned_seqs(p["seqs"], moltype="dna") if "seqs" in p else None
+    if route == "counts_per_seq":
+        return aln.counts_per_seq().to_table()
+    if route == "counts_per_pos":
+        return aln.counts_per_pos().to_table()
+    if route == "probs_per_pos":
+        return aln.probs_per_pos().to_table()
+    if route == "pssm":
+        return aln.probs_per_pos().to_pssm().to_table()
+    if route == "aln_dmat":
+        return aln.distance_matrix(calc="pdist").to_table()
+    if route == "entropy":
+        return aln.counts_per_seq().to_freq_array().to_table()
+    if route in ("lf_stats", "lf_table"):
+        lf = build_lf(p["lf"])
+        lf = apply_lf_ops(lf, p["lf"].get("ops", []), [])
+        tabs = lf.get_statistics(with_motif_probs=True, with_titles=True)
+        return tabs[p.get("which", 0) % len(tabs)]
+    if route == "count_unique":
+        from cogent3 import make_table
+
+        return make_table(header=p["header"], data=p["rows"]).count_unique(p["header"][0]).to_table()
+    if route == "db_counts":
+        from cogent3.core.annotation_db import BasicAnnotationDb
+
+        db = BasicAnnotationDb()
+        db.add_feature(seqid="s1", biotype="gene", name="g", spans=[(1, 4)])
+        db.add_feature(seqid="s2", biotype="exon", name="e", spans=[(2, 5)])
+        return db.count_distinct(seqid=True, biotype=True)
+    raise KeyError(route)
+
+
 def case_table(p):
     from cogent3 import make_table
 
     kw = {k: p[k] for k in ("title", "legend", "digits", "space", "index_name", "missing_data", "max_width", "column_templates") if p.get(k) is not None}
-    t = make_table(header=p["header"], data=p["rows"], **kw) if not p.get("as_dict") else make_table(data={h: [r[i] for r in p["rows"]] for i, h in enumerate(p["header"])}, **kw)
+    route = p.get("route")
+    if route:
+        t = table_by_route(route, p)
+    else:
+        t = make_table(header=p["header"], data=p["rows"], **kw) if not p.get("as_dict") else make_table(data={h: [r[i] for r in p["rows"]] for i, h in enumerate(p["header"])}, **kw)
     log = []
     for op in p.get("ops", []):
         k = op[0]
